@@ -295,6 +295,11 @@ func enumerateRules(e *Env, r *Report) ([]genRule, bool) {
 // whether it is absent (choice 0) or present, with the choice itself for the access list and the
 // qualifier - a uniform sample of the vectors rarely meets the rare shapes (dbus bind without name).
 func stratify(gen []genRule, perClass int, rng *rand.Rand) []genRule {
+	return stratifyBy(gen, perClass, rng, false)
+}
+
+// stratifyBy: coarse = presence only for every field (access, qualifier and comment included).
+func stratifyBy(gen []genRule, perClass int, rng *rand.Rand, coarse bool) []genRule {
 	classes := map[string][]genRule{}
 	keys := []string{}
 	for _, g := range gen {
@@ -303,7 +308,7 @@ func stratify(gen []genRule, perClass int, rng *rand.Rand) []genRule {
 		b.WriteString(g.Kind)
 		for i, c := range g.Vec {
 			f := sc.Fields[i].Field
-			if f == "Access" || f == "Qualifier" || f == "Comment" {
+			if !coarse && (f == "Access" || f == "Qualifier" || f == "Comment") {
 				fmt.Fprintf(&b, "|%d", c)
 			} else if c == 0 {
 				b.WriteString("|-")
@@ -905,6 +910,17 @@ func checkC12(e *Env, r *Report) {
 			}
 		}
 		pool = stratify(noc, 1, rng)
+		// and one commented rule of every (kind x present fields) class: where the comment is put matters to the parser
+		withc := []genRule{}
+		for _, g := range gen {
+			sc := schemaOf(g.Kind)
+			for i, f := range sc.Fields {
+				if f.Field == "Comment" && g.Vec[i] != 0 {
+					withc = append(withc, g)
+				}
+			}
+		}
+		pool = append(pool, stratifyBy(withc, 1, rng, true)...)
 	}
 	for _, g := range pool {
 		sc := schemaOf(g.Kind)
